@@ -208,6 +208,18 @@ func genLeafRuns(r *rng, kinds []LeafCfg, budgets []int, fullMasks bool, emit fu
 						for pk := 0; pk < 3; pk++ {
 							t.next, t.errN = r.intn(30), r.intn(20)
 							scr := t.leafScript(0, 0, prepOK, m, att, fbOK, postStr(t, pk, "a"))
+							// Result-style functions may hand an error Result on as a VALUE (nil error)
+							if cfg.ExecS == "res" && r.chance(12) {
+								for k2, e := range scr.Exec {
+									if !strings.HasPrefix(e, "!") {
+										scr.Exec[k2] = "xu" + strconv.Itoa(t.err())
+										break
+									}
+								}
+							}
+							if cfg.PrepS == "res" && prepOK && r.chance(8) {
+								scr.Prep = "xu" + strconv.Itoa(t.err())
+							}
 							cnt++
 							if (cnt/3)%3 == 0 { // (not cnt%3: that would tie the variant to the post kind)
 								emit(asFlowStep(cfg, scr, t))
